@@ -19,6 +19,39 @@ class L2Domain:
         self.builtins = {'range': self._range, 'len': self._len, 'int': self._int, 'float': self._float, 'abs': self._abs,
                          'min': self._min, 'max': self._max, 'sum': self._sum, 'str': self._str, 'complex': complex}
 
+    def compare(self, op, left, right):
+        """== / != of two symbolic sizes.  Distinct free parameters are different numbers (the scenario is generic), but a DERIVED size -- the rank min(a, b) a
+        decomposition returns -- may well equal another expression (ranks stabilise from sweep to sweep): then both outcomes are explored"""
+        import ast as _ast
+        if not isinstance(op, (_ast.Eq, _ast.NotEq)) or not any(isinstance(v, Size) for v in (left, right)) or \
+                not all(isinstance(v, Size) or (isinstance(v, int) and not isinstance(v, bool)) for v in (left, right)):
+            return None
+        left, right = Size.of(left, self.ctx.atoms), Size.of(right, self.ctx.atoms)
+        from .interp import UnknownBool
+        if left.is_const() != right.is_const():
+            c, v = (left, right) if left.is_const() else (right, left)
+            if c.const() >= 2 and v.single_atom() is not None:
+                # a data size (number of snapshots, transitions, ...) compared with a particular number: the scenario is generic, the test is not -- both outcomes
+                r = UnknownBool(f'{v} == {c.const()}: whether a size of the data equals a particular number')
+                r.size_eq = (v, c.const(), isinstance(op, _ast.Eq))
+                return r
+            return None
+        if left.is_const() or right.is_const() or left == right:
+            return None
+        reg = self.ctx.atoms
+        derived = getattr(reg, 'min_of', {})
+        atoms = {a for sz in (left, right) for mono in sz.terms for a, _e in mono}
+        if not (atoms & set(derived)):
+            return None
+        try:
+            if reg.le(left + 1, right) or reg.le(right + 1, left):
+                return None          # provably different
+        except UnknownTruth:
+            pass
+        r = UnknownBool(f'{left} == {right}: a rank returned by a decomposition may or may not equal the other size')
+        r.size_eq = (left, right, isinstance(op, _ast.Eq))
+        return r
+
     # ---- builtins on abstract values
     def _range(self, *a):
         if all(isinstance(x, int) for x in a):
@@ -162,6 +195,10 @@ class L2Domain:
         return out
 
     def on_branch(self, it, node, v, outcome):
+        se = getattr(v, 'size_eq', None)
+        if se is not None and (outcome if se[2] else not outcome):
+            # the path continues under the assumption that two different symbols denote the same number (the analysis does not identify them afterwards)
+            self.ctx.event('size-equality-assumed', left=se[0], right=se[1])
         self.ctx.event('branch', outcome=outcome, decided=False, expr=v.tags.get('expr') if isinstance(v, Arr) else None, value=v, test=node)
 
     def truth(self, v):
@@ -313,6 +350,7 @@ def explore(repo, body, typed=True, max_paths=4096, intercept=None):
             stack.append(ch + [True])
             continue
         except Raised as r:
+            r.assumed_equal = [(e['left'], e['right']) for e in sc.events('size-equality-assumed')]
             out.append((ch, sc, None, r))
         if len(out) > max_paths:
             raise AnalysisError(f'more than {max_paths} paths in one scenario')
